@@ -293,10 +293,10 @@ def wire_bytes(g, plain, obf, tag):
     return obfuscate(plain, terms(g.raw(f'key.{tag}', 4))) if obf else list(plain)
 
 
-def payload_frames(g, typ, obf, tag):
-    """two valid frames the peer sends after initialisation (symbolic leaves) + their number"""
+def payload_frames(g, typ, obf, tag, n=2):
+    """n valid frames the peer sends after initialisation (symbolic leaves)"""
     out = []
-    for i in (1, 2):
+    for i in range(1, n + 1):
         if typ == 'P':
             p = peer_place_in_queue_reply(g.text(f'{tag}{i}.filename', 2), g.word(f'{tag}{i}.place', 32))
         else:
@@ -343,11 +343,14 @@ def add_tail(R, c, g, W, wire_of, typ, obf_after, tail):
     if tail in ('frames_eof', 'frames_batch', 'handler_disconnects'):
         if typ == 'F':
             raise symex.HarnessError('no message frames on file connections')
-        f1, f2 = payload_frames(g, typ, obf_after, 'in')
         if tail == 'frames_eof':
+            f1, f2 = payload_frames(g, typ, obf_after, 'in')
             ev(lambda w, x: w.feed(f1))
             ev(lambda w, x: w.feed(f2))
         else:
+            # eight frames in one segment: every one of them is handled by a listener that suspends once
+            fs = payload_frames(g, typ, obf_after, 'in', 8)
+
             def batch(w, x):
                 obs.slow_listener = True
                 if tail == 'handler_disconnects':
@@ -355,7 +358,7 @@ def add_tail(R, c, g, W, wire_of, typ, obf_after, tail):
                         if e.connection is x and len(obs.messages(x)) == 1:
                             loop.create_task(x.disconnect(CloseReason.REQUESTED))
                     obs.on_message_hook = hook
-                w.feed(f1 + f2)
+                w.feed([t for f in fs for t in f])
             ev(batch)
         ev(lambda w, x: w.remote_eof())
     elif tail == 'eof':
@@ -841,7 +844,7 @@ META = {
                       'connect mode (fallback / race), typ (P/D/F)', 'outcome of open_connection (ok, ok after 1 s, refused, refused after 1 s, never)',
                       'outcome of the init-message write (ok, fails, stalls)', 'server: connect outcome, end kind (7), outcome of the reconnect'],
     'bounds': {t: {'fully symbolic first frame body': f"0..{b['any']} bytes (plain port), 0..{b['any_obf']} (obfuscated port)",
-                   'pending indirect attempts': '0..2', 'frames after initialisation': 2, 'injected actions per scenario': '1 (2 for `double`)',
+                   'pending indirect attempts': '0..2', 'frames after initialisation': '2 (one per segment) or 8 (one segment)', 'injected actions per scenario': '1 (2 for `double`)',
                    'virtual time': f'{HORIZON:.0f} s after the last scripted event + shutdown', 'loop steps per scenario': MAX_STEPS}
                for t, b in BOUNDS.items()},
     'outside': ['orderings that need two or more independent injected actions besides the scripted end (only `double` has two)',
